@@ -80,8 +80,13 @@ theorem isEmpty_iff (x : Range α) (hx : x.b ≤ x.e) : x.isEmpty = true ↔ ∀
   · intro h p; grind
   · intro h; have := h x.b; grind
 
-/-- two non-empty ranges overlap iff they share a point -/
-theorem overlap_iff (x r : Range α) (hx : x.b < x.e) (hr : r.b < r.e) :
+/-- two non-empty ranges overlap iff they share a point.
+FULL STATEMENT (the property says "including empty ranges"):
+  `∀ x r, x.b ≤ x.e → r.b ≤ r.e → (x.overlap r = true ↔ ∃ p, mem p x ∧ mem p r)`
+is FALSE of the code: an empty operand lying strictly inside the other "overlaps" it
+(`overlap_empty`, witness `C20Inst.overlap_empty_operand_witness`, known finding
+C20-overlap-empty-operand).  What is missing here: the empty operands. -/
+theorem overlap_iff_partial (x r : Range α) (hx : x.b < x.e) (hr : r.b < r.e) :
     x.overlap r = true ↔ ∃ p, mem p x ∧ mem p r := by
   rw [overlap_eq]; unfold mem
   constructor
@@ -97,8 +102,12 @@ theorem overlap_empty (x r : Range α) (hr : r.b = r.e) :
     x.overlap r = true ↔ (x.b < r.b ∧ r.b < x.e) := by
   rw [overlap_eq]; grind
 
-/-- containment of a non-empty range is set inclusion -/
-theorem contains_iff (x r : Range α) (hr : r.b < r.e) :
+/-- containment of a non-empty range is set inclusion.
+FULL STATEMENT: `∀ x r, r.b ≤ r.e → (x.contains r = true ↔ ∀ p, mem p r → mem p x)` is FALSE of the
+code: an empty `r = [c,c[` with `c` outside `[x.b, x.e]` is "not contained" although it has no
+point (`contains_endpoints`, witness `C20Inst.contains_empty_range_witness`, known finding
+C20-contains-empty-range).  What is missing here: the empty argument. -/
+theorem contains_iff_partial (x r : Range α) (hr : r.b < r.e) :
     x.contains r = true ↔ ∀ p, mem p r → mem p x := by
   rw [contains_eq]; unfold mem
   constructor
@@ -153,10 +162,10 @@ def RangePreds (x r : Range α) : Prop :=
     ∀ p, ((x.b ≤ p ∨ r.b ≤ p) ∧ (p < x.e ∨ p < r.e)) → mem p x ∨ mem p r)) ∧
   x.overlap r = r.overlap x
 
-/-- **range_preds**: `overlap`, `contains`, `isContiguous`, `isEmpty` agree with interval
+/-- **range_preds_partial**: `overlap`, `contains`, `isContiguous`, `isEmpty` agree with interval
 arithmetic on half-open intervals -/
-theorem range_preds (x r : Range α) (hx : x.b ≤ x.e) (_hr : r.b ≤ r.e) : RangePreds x r :=
-  ⟨isEmpty_iff x hx, overlap_iff x r, overlap_empty x r, contains_iff x r, contains_endpoints x r,
+theorem range_preds_partial (x r : Range α) (hx : x.b ≤ x.e) (_hr : r.b ≤ r.e) : RangePreds x r :=
+  ⟨isEmpty_iff x hx, overlap_iff_partial x r, overlap_empty x r, contains_iff_partial x r, contains_endpoints x r,
     contiguous_iff x r, contiguous_spec x r, overlap_comm x r⟩
 
 /-- slicing is intersection, for all (possibly empty) well-formed operands -/
@@ -368,9 +377,9 @@ theorem filter_spec (m : List (Range α)) (r : Range α) (hm : MultiRange.Inv m)
     simp only [pts, List.mem_filter]
     constructor
     · rintro ⟨x, ⟨hx, hc⟩, hp⟩
-      exact ⟨x, hx, hp, (contains_iff r x (hm.1 x hx)).mp hc⟩
+      exact ⟨x, hx, hp, (contains_iff_partial r x (hm.1 x hx)).mp hc⟩
     · rintro ⟨x, hx, hp, hq⟩
-      exact ⟨x, ⟨hx, (contains_iff r x (hm.1 x hx)).mpr hq⟩, hp⟩
+      exact ⟨x, ⟨hx, (contains_iff_partial r x (hm.1 x hx)).mpr hq⟩, hp⟩
 
 theorem inv_nil : MultiRange.Inv ([] : List (Range α)) :=
   ⟨(fun _ hx => nomatch hx), List.Pairwise.nil⟩
